@@ -8,6 +8,6 @@ CONSTANT MaxWrites = 6
 CONSTANT PutSets <- PS5
 CONSTANT ConfSets <- CS2
 CONSTANT Lims = {0}
-SPECIFICATION Spec
+SPECIFICATION SimSpec
 INVARIANT BehaviourExport
 CHECK_DEADLOCK FALSE
